@@ -1,4 +1,5 @@
 """C09 — the cluster update is weight-preserving and reversible."""
+from checks import big_scale
 from checks import pure_fns, law_audits, full_step
 from checks import extra_audits
 from checks import api_cov
@@ -121,4 +122,6 @@ def main(ck):
     full_step.run(ck, modes=["ising"])   # whole real time steps (cluster updates with and without field), dev and release semantics
     api_cov.run(ck, "c09")   # otherwise unexercised public API, model-free oracles of this property
     scale_inv.run(ck, "c09")   # power-of-two unit change: identical trajectory, energies exactly scaled (model-free twin oracle)
+    big_scale.run(ck, "bigcluster")   # large-scale regime (>65536 bonds/ops/slots, release semantics): model-free oracles of the property statements
+    big_scale.run(ck, "manybonds.lattice")   # large-scale regime (>65536 bonds/ops/slots, release semantics): model-free oracles of the property statements
     return ck.finish(RULE)
